@@ -104,7 +104,9 @@ def run(ctx) -> None:
     ok = bool(rets) and all(isinstance(r.value, ast.Call) and dotted(r.value.func) == "copy.deepcopy" and r.value.args and src(r.value.args[0]) == sd.positional_params[0] for r in rets)
     rep.add("C18.R1", f"{sd.qname}:is-deepcopy", ok, sd.loc(), "the helper returns copy.deepcopy(value)" if ok else "the copy helper no longer returns copy.deepcopy of its argument (e.g. a shallow copy shares nested containers)")
     ci = db.func("runners._shared.helpers.collect_inputs_for_node")
-    ok = any(isinstance(n, ast.Assign) and isinstance(n.targets[0], ast.Subscript) and isinstance(n.value, ast.Call) and "_resolve_input" in call_names(db, n.value, ci) for n in walk_local(ci.node))
+    ok = any(isinstance(n, ast.Assign) and isinstance(n.targets[0], ast.Subscript) and isinstance(n.value, ast.Call) and "_resolve_input" in call_names(db, n.value, ci) for n in walk_local(ci.node)) or any(
+        isinstance(n, ast.DictComp) and isinstance(n.value, ast.Call) and "_resolve_input" in call_names(db, n.value, ci) and not n.generators[0].ifs for n in walk_local(ci.node)
+    )
     rep.add("C18.R1", f"{ci.qname}:uses-resolver", ok, ci.loc(), "every input of a node is obtained from _resolve_input" if ok else "collect_inputs_for_node bypasses the copying resolver")
 
     # ---- R5: who may copy a value ------------------------------------------------
